@@ -1,6 +1,18 @@
 import PqlModel.Props.C10
 import PqlModel.Props.C08Full
+import PqlModel.Props.C10Linecol
+import PqlModel.Props.C10Failed
 #print axioms Pql.C10.C10_union_lists_every_field
 #print axioms Pql.C10.C10_model_matches_span_table
 #print axioms Pql.C10.C10_unions_contains
 #print axioms Pql.C08.C08_accounted_parse
+#print axioms Pql.C10.C10_rune_no_ascii_inside
+#print axioms Pql.C10.C10_linecol_line
+#print axioms Pql.C10.C10_linecol_col_pos
+#print axioms Pql.C10.C10_linecol_line_bounds
+#print axioms Pql.C10.C10_linecol_prefix
+#print axioms Pql.C10.C10_error_spans_at_tokens
+#print axioms Pql.C10.C10_error_spans_inside
+#print axioms Pql.C10.C10_error_spans_valid
+#print axioms Pql.C10.C10_partial_tree_spans_origin
+#print axioms Pql.C10.C10_partial_tree_spans_inside
